@@ -570,11 +570,11 @@ theorem extract_none_end_to_end (B : Nat) (hB : 1 ≤ B) (f : PyFile) (ks : List
           candsIn_nil_of_noHeader false f.data _ (fun k hk => (hall ha k (hlk k hk)).1)]
       rfl
 
+open Gen.Guardrails C17 in
 /-- **Guardrails-protected payload, end to end** (C17 `recover_from_file_partial`, under its own hypotheses): the payload
 `pre ++ masked configuration ++ masked guard configuration ++ post` is not detected as XorEncoded and has no plain
 candidate under the tried keys: `from_file` returns the recovered configuration `cfg`, `xorkey = 0x2e`,
 `xorencoded = False` and the Guardrails record (environmental key `K`, offsets, guard settings). -/
-open Gen.Guardrails C17 in
 theorem extract_guardrails_end_to_end (B : Nat) (hB : 1 ≤ B) (f : PyFile) (ks : List Bytes) (allKeys : Bool)
     (pre post cfg K gc : Bytes)
     (hcfg : cfg.length = BEACON_CONFIG_PATCH_SIZE) (hgc : gc.length = GUARD_PATCH_SIZE)
@@ -719,5 +719,170 @@ example : settingsTuple (⟨false, exRaw, [0x2e], 1⟩ : Cand).result = [{ index
 
 example : makeByteList [[0x69], [0x2e], [0x00], [1, 2]] = ((List.range 256).filter (fun n => n ≠ 0x69 ∧ n ≠ 0x2e ∧ n ≠ 0)).map
     (fun n => [UInt8.ofNat n]) := by decide +kernel
+
+/-! #### end-to-end theorems: concrete payloads meeting the hypotheses (every hypothesis discharged by the kernel) -/
+
+-- `extract_raw_end_to_end`: `exRaw` as an OS file, all-keys mode requested (not reached)
+set_option maxRecDepth 100000 in
+example : fromFileReal 8192 ⟨exRaw, 0, .osFile⟩ [] true
+      = .ok ⟨[0, 1, 0, 1, 0, 2, 0, 8, 0, 0], [0x2e], false, none⟩ ∧
+    (⟨[0, 1, 0, 1, 0, 2, 0, 8, 0, 0], [0x2e], false, none⟩ : Extracted).settings
+      = [{ index := 1, type := 1, length := 2, value := [0, 8] }] := by
+  obtain ⟨h1, h2⟩ := extract_raw_end_to_end 8192 (by omega) ⟨exRaw, 0, .osFile⟩ [] true (by decide +kernel)
+    [0x2e] 1 (by decide) (by decide +kernel) (by decide +kernel)
+  have hb : C20.xor ((exRaw.drop 1).take patchSize) [0x2e] = [0, 1, 0, 1, 0, 2, 0, 8, 0, 0] := by decide +kernel
+  rw [hb] at h1 h2
+  exact ⟨h1, h2 [{ index := 1, type := 1, length := 2, value := [0, 8] }] [] (by decide) (by decide +kernel)⟩
+
+-- … and the model evaluated by the kernel gives the same answer (small buffer, BytesIO not at the start)
+set_option maxRecDepth 100000 in
+example : fromFileReal 3 ⟨exRaw, 5, .bytesIO⟩ [] false = .ok ⟨[0, 1, 0, 1, 0, 2, 0, 8, 0, 0], [0x2e], false, none⟩ := by
+  decide +kernel
+
+/-- a 64-byte "image": `MZ`, `e_lfanew = 4`, i386 file header at offset 8 -/
+def exImage : Bytes := [0x4d, 0x5a] ++ List.replicate 6 0 ++ [0x4c, 0x01] ++ List.replicate 50 0 ++ [4, 0, 0, 0]
+/-- decoded content: the image, a filler byte, a block under the SECOND default key `0x2e` -/
+def exPlain : Bytes := exImage ++ [0x55] ++ C20.xor [0, 1, 0, 1, 0, 2, 0, 8, 0, 0] [0x2e]
+/-- loader stub with a decoy: a complete block under the FIRST default key `0x69`, in the raw bytes -/
+def exStub : Bytes := [0x90] ++ C20.xor [0, 1, 0, 1, 0, 2, 0, 4, 0, 0] [0x69] ++ [0x90]
+def exNonce : Bytes := [1, 2, 3, 4]
+/-- `len(enc) = 75` as a little-endian dword, XORed with the nonce -/
+def exSize : Bytes := [74, 2, 3, 4]
+def exEnc : Bytes := C09.rollEncode exNonce exPlain
+
+-- `extract_xorencoded_end_to_end`: size relation holds, no marker; the `0x69` decoy in the stub is not looked at
+set_option maxRecDepth 100000 in
+example : fromFileReal 8192 ⟨exStub ++ exNonce ++ exSize ++ exEnc, 7, .bytesIO⟩ [] false
+      = .ok ⟨[0, 1, 0, 1, 0, 2, 0, 8, 0, 0], [0x2e], true, none⟩ := by
+  have hdec : C09.rollDecode exNonce exEnc = exPlain := C09.rollDecode_rollEncode exNonce exPlain rfl
+  obtain ⟨h1, _⟩ := extract_xorencoded_end_to_end 8192 (by omega) exStub exNonce exSize exEnc rfl rfl
+    ⟨exStub ++ exNonce ++ exSize ++ exEnc, 7, .bytesIO⟩ rfl [] false
+    (Or.inr (by decide +kernel)) 4
+    (by rw [hdec]; exact ⟨by decide +kernel, by decide +kernel, by decide, by decide, by decide +kernel, by decide +kernel⟩)
+    (by decide +kernel)
+    (by simp only [C09.SizeRel]; decide +kernel)
+    [0x2e] 65 (by decide) (by rw [hdec]; decide +kernel) (by rw [hdec]; decide +kernel)
+  rw [hdec] at h1
+  have hb : C20.xor ((exPlain.drop 65).take patchSize) [0x2e] = [0, 1, 0, 1, 0, 2, 0, 8, 0, 0] := by decide +kernel
+  rw [hb] at h1
+  exact h1
+
+-- … and by evaluation of the model, as an OS file
+set_option maxRecDepth 100000 in
+example : fromFileReal 8192 ⟨exStub ++ exNonce ++ exSize ++ exEnc, 0, .osFile⟩ [] false
+      = .ok ⟨[0, 1, 0, 1, 0, 2, 0, 8, 0, 0], [0x2e], true, none⟩ := by decide +kernel
+
+-- `extract_none_end_to_end`: nothing under the default keys (the block is under `0xaf`), no XorEncoded stage, too short
+-- for a Guardrails area
+set_option maxRecDepth 100000 in
+example : fromFileReal 8192 ⟨C20.xor [0, 1, 0, 1, 0, 2, 0, 8, 0, 0] [0xaf], 0, .bytesIO⟩ [] false = .error .valueError :=
+  extract_none_end_to_end 8192 (by omega) _ [] false (by decide +kernel) (by decide +kernel) (by intro h; cases h)
+    (fun _ => guardClean_of_short _ _ (by decide))
+    (fun c _ _ => guardClean_of_short _ _ (Nat.le_trans (Nat.add_le_add_right (decodedView_length_le _ c) 6) (by decide)))
+
+-- … all-keys mode on a payload shorter than the header: all 256 keys (and the defaults) find nothing
+set_option maxRecDepth 100000 in
+example : fromFileReal 16 ⟨[0, 1, 0, 1, 0, 2], 3, .osFile⟩ [[0x41]] true = .error .valueError :=
+  extract_none_end_to_end 16 (by omega) _ [[0x41]] true (by decide +kernel) (by decide +kernel) (fun _ => by decide +kernel)
+    (fun _ => guardClean_of_short _ _ (by decide))
+    (fun c _ _ => guardClean_of_short _ _ (Nat.le_trans (Nat.add_le_add_right (decodedView_length_le _ c) 6) (by decide)))
+
+/-! `extract_guardrails_end_to_end`: an 8192-byte Guardrails-protected payload — configuration `SETTING_PROTOCOL = 8`
+padded to 6144 bytes, environmental key `05 05`, guard configuration `GUARD_COMPUTER = ab cd`, `GUARD_PAYLOAD_CHECKSUM = 26`.
+The masked areas are written out as literals (`exMb`, `exMg`) and proved equal to what the masking produces, so that no
+hypothesis needs a kernel evaluation over the whole payload. -/
+section guardrailsExample
+open Gen.Guardrails C17
+
+def exCfg : Bytes := [0, 1, 0, 1, 0, 2, 0, 8, 0, 0] ++ List.replicate 6134 0
+def exGc : Bytes := [0, 6, 0, 1, 0, 2, 0xab, 0xcd, 0, 9, 0, 2, 0, 4, 0, 0, 0, 26, 0, 0] ++ List.replicate 2028 0
+def exKey : Bytes := [5, 5]
+def exMb : Bytes := [0x2b, 0x2a, 0x2b, 0x2a, 0x2b, 0x29, 0x2b, 0x23, 0x2b, 0x2b] ++ List.replicate 6134 0x2b
+def exMg : Bytes :=
+  [0xa1, 0xa7, 0xa1, 0xa0, 0xa1, 0xa3, 0x0a, 0x6c, 0xa1, 0xa8, 0xa1, 0xa3, 0xa1, 0xa5, 0xa1, 0xa1, 0xa1, 0xbb, 0xa1, 0xa1]
+    ++ List.replicate 2028 0xa1
+def exGuarded : Bytes := exMb ++ exMg
+
+theorem exCfg_length : exCfg.length = 6144 := by rw [exCfg, List.length_append, List.length_replicate]; rfl
+theorem exGc_length : exGc.length = 2048 := by rw [exGc, List.length_append, List.length_replicate]; rfl
+
+theorem exMb_eq : C20.xor (C20.xor exCfg exKey) beaconXorKey = exMb := by
+  rw [xor_const_key _ exKey 5 (by decide) (by decide), xor_const_key _ beaconXorKey 0x2e (by decide) (by decide)]
+  simp only [exCfg, List.map_append, List.map_replicate]
+  rfl
+
+theorem exMg_eq : maskGuard exGc defaultGuardXorKey exMb = exMg := by
+  unfold maskGuard
+  rw [xor_eq_zipWith _ exMb.reverse (by
+        rw [C17.xor_length, exGc_length, List.length_reverse, exMb, List.length_append, List.length_replicate]; decide),
+      xor_const_key _ defaultGuardXorKey 0x8a (by decide) (by decide)]
+  have hr : exMb.reverse = List.replicate 6134 0x2b ++ [0x2b, 0x2a, 0x2b, 0x2a, 0x2b, 0x29, 0x2b, 0x23, 0x2b, 0x2b].reverse := by
+    rw [exMb, List.reverse_append, List.reverse_replicate]
+  rw [hr, zipWith_replicate_right _ _ _ _ _ (by rw [List.length_map, exGc_length]; decide)]
+  simp only [exGc, List.map_append, List.map_replicate]
+  rfl
+
+theorem exGuarded_eq : exGuarded =
+    [] ++ C20.xor (C20.xor exCfg exKey) beaconXorKey
+      ++ maskGuard exGc defaultGuardXorKey (C20.xor (C20.xor exCfg exKey) beaconXorKey) ++ [] := by
+  rw [exMb_eq, exMg_eq, List.nil_append, List.append_nil]; rfl
+
+theorem exGuarded_bytes : ∀ b ∈ [(0xff : UInt8), 0, 0x69, 0x2e], b ∉ exGuarded := by
+  intro b hb
+  simp only [exGuarded, exMb, exMg, List.mem_append, List.mem_replicate]
+  revert b
+  decide
+
+theorem exGuarded_length : exGuarded.length = 8192 := by
+  simp only [exGuarded, exMb, exMg, List.length_append, List.length_replicate, List.length_cons, List.length_nil]
+
+theorem exGuarded_sizeRel : ∀ c, c < 1024 → ¬ C09.SizeRel exGuarded (exGuarded.length : Int) c := by
+  intro c hc
+  rw [exGuarded_length]
+  by_cases h10 : c < 10
+  · have h : ∀ c, c < 10 → ¬ C09.SizeRel exGuarded ((8192 : Nat) : Int) c := by
+      simp only [C09.SizeRel]; decide +kernel
+    exact h c h10
+  · rintro ⟨_, h⟩
+    have e1 : (exGuarded.drop c).take 4 = List.replicate 4 0x2b :=
+      slice_in_replicate _ exMg 6134 0x2b c 4 (by simp only [List.length_cons, List.length_nil]; omega)
+        (by simp only [List.length_cons, List.length_nil]; omega)
+    have e2 : (exGuarded.drop (c + 4)).take 4 = List.replicate 4 0x2b :=
+      slice_in_replicate _ exMg 6134 0x2b (c + 4) 4 (by simp only [List.length_cons, List.length_nil]; omega)
+        (by simp only [List.length_cons, List.length_nil]; omega)
+    rw [e1, e2] at h
+    have hz : C09.u32 (C20.xor (List.replicate 4 0x2b) (List.replicate 4 0x2b)) = 0 := by decide +kernel
+    rw [hz] at h
+    omega
+
+set_option maxRecDepth 100000 in
+example : ∃ m, fromFileReal 8192 ⟨exGuarded, 0, .bytesIO⟩ [] false = .ok ⟨exCfg, [0x2e], false, some m⟩ ∧
+    m.payloadXorKey = some exKey ∧ m.beaconConfigOffset = 0 ∧ m.guardConfigOffset = 6144 :=
+  ⟨_, extract_guardrails_end_to_end 8192 (by omega) ⟨exGuarded, 0, .bytesIO⟩ [] false [] [] exCfg exKey exGc
+    exCfg_length exGc_length (by decide) (by decide) (by decide +kernel) (by decide +kernel)
+    (zero_padding_dominates 8192 exCfg exKey (by decide) (by rw [exCfg_length]; decide) (by decide +kernel))
+    (by intro k hk; simp [exKey] at hk) exGuarded_eq
+    (noEarlierRecord_start _ _ _ (by decide))
+    (notXorEncoded_rejects 8192 (by omega) _ (notXorEncoded_of_no_candidate _
+      (by intro h hh
+          rw [show C15.occ exGuarded C09.eofMarker = [] from
+            occ_nil_of_byte _ _ 0xff (by decide) (exGuarded_bytes 0xff (by decide))] at hh
+          cases hh)
+      exGuarded_sizeRel))
+    (by intro k hk
+        have hk' : k ∈ [[(0x69 : UInt8)], [0x2e], [0]] := hk
+        simp only [List.mem_cons, List.not_mem_nil, or_false] at hk'
+        rcases hk' with rfl | rfl | rfl
+        · exact occ_nil_of_byte _ _ 0x69 (by decide) (exGuarded_bytes 0x69 (by decide))
+        · exact occ_nil_of_byte _ _ 0x2e (by decide) (exGuarded_bytes 0x2e (by decide))
+        · exact occ_nil_of_byte _ _ 0 (by decide) (exGuarded_bytes 0 (by decide)))
+    (by intro h; cases h),
+   rfl, rfl, rfl⟩
+
+-- the settings of the recovered configuration (C02 `parse_serialize`, no evaluation over the 6144 bytes)
+example : (⟨exCfg, [0x2e], false, none⟩ : Extracted).settings = [{ index := 1, type := 1, length := 2, value := [0, 8] }] :=
+  (C02.parse_serialize [{ index := 1, type := 1, length := 2, value := [0, 8] }] (by decide) (List.replicate 6134 0)).1
+
+end guardrailsExample
 
 end C01
